@@ -5,6 +5,7 @@
 //	race <n> <step> <ops T1> <ops T2> … | <schedule>     controlled scheduler on a wheel without ticker goroutine
 //	time <step> <n> | <id>,<t|a>,<at>,<d>[,<delay>/<arg|->]… …   real wheel + ticker under the runtime's virtual clock
 //	pure <step> <n> <base> <arg|->                        NewTimer(base); Reset(arg) on a wheel that never ticks
+//	huge <n> <step> <pre> <ops>                           sequential requests on a (huge) wheel: tick until the timer is released
 //	ctor <step> <n>                                       NewWheel(step, n): panics iff step <= 0 or n <= 0
 package main
 
@@ -83,6 +84,11 @@ func exec(c *hx.Ctx, line string) string {
 			return "bad-op"
 		}
 		return runPure(atoi64(w[1]), atoi(w[2]), atoi64(w[3]), w[4])
+	case "huge":
+		if len(w) != 5 {
+			return "bad-op"
+		}
+		return runHuge(atoi(w[1]), atoi64(w[2]), atoi(w[3]), parseOps(w[4]))
 	case "ctor":
 		if len(w) != 3 {
 			return "bad-op"
